@@ -78,7 +78,7 @@ func (g *srvGen) liveList() []int {
 }
 
 func (g *srvGen) announce(s int, id drv.U128) {
-	g.add(drv.SStep{K: "elect", S: s, ID: &id})
+	g.add(drv.SStep{K: "elect", S: s, ID: &id, Unk: g.r.Chance(1, 8)})
 	if !g.neg[s] || id.IsZero() {
 		g.drop(s)
 		return
